@@ -20,13 +20,13 @@ ENGINE = 'fault'
 BUDGET = {'quick': 4000, 'thorough': 100000}
 WALL = {'quick': 45, 'thorough': 1500}
 RULE = ('argument lists of 1-6 in seeded order mixing trashable entries, missing paths, dot entries, names that are not valid UTF-8 and entries '
-        'whose trashing is made to fail by an injected persistent condition (entry immutable: EPERM on rename; directory not writable: EACCES), '
+        'whose trashing is made to fail by an injected persistent condition (entry immutable: EPERM on rename; directory not writable: EACCES; a hard error - ENOSPC, EDQUOT, EROFS, EIO, EACCES - at the open, write or close of that argument\'s .trashinfo in whatever trash directory is tried), '
         'none related to another (duplicates in a separate generator), with -f / -i (reply per prompt) / -v; k+1 simulated runs per list '
         '(the list, then each argument alone under the same faults and clock); non-trivial = the list mixes at least one failing and one '
         'trashable argument; distinct = (sorted multiset of argument classes, options, position of the first failing argument)')
 ASSUMPTIONS = ['independence is claimed for arguments none of which is an ancestor, alias, link target or duplicate of another']
 PROBES = ['arg-empty-string', 'lists', 'solo-runs', 'mixed-lists', 'arg-trashed', 'arg-missing', 'arg-dot', 'arg-invalid-utf8', 'arg-fault-immutable',
-          'arg-fault-dir', 'arg-declined', 'arg-missing-forced', 'duplicates-lists', 'exit0', 'exit-nonzero']
+          'arg-fault-dir', 'arg-fault-info-creation', 'arg-declined', 'arg-missing-forced', 'duplicates-lists', 'exit0', 'exit-nonzero']
 TECHNIQUE = 'deterministic simulation with injected persistent conditions; differential: each argument alone vs inside the list on identically rebuilt worlds'
 LEVEL_TEXT = 'seeded exploration of argument lists x orders x options x injected failures; exit status, per-argument diagnostics and independence (by differential)'
 LEVEL_NOTE = 'trusted: C01 frame oracle, fault condition matcher, world rebuild determinism'
@@ -46,7 +46,7 @@ def gen(rng):
         vol = rng.choice(['/'] + L['vols'])
         wd = L['work'][vol]
         aux = home + '/aux' if vol == '/' else vol + '/aux'
-        cls = rng.choice(['ok', 'ok', 'ok', 'missing', 'dot', 'badutf8', 'immutable', 'rodir', 'emptystr'])
+        cls = rng.choice(['ok', 'ok', 'ok', 'missing', 'dot', 'badutf8', 'immutable', 'rodir', 'emptystr', 'infofail'])
         nm = 'a%d' % i
         if cls == 'ok':
             p = wd + '/' + nm
@@ -64,6 +64,13 @@ def gen(rng):
         elif cls == 'badutf8':
             p = wd + '/bad%d\udcff' % i
             G.make_entry(rng, p, rng.choice(['file', 'emptydir']), steps, aux)
+        elif cls == 'infofail':
+            # a hard error while this argument's .trashinfo is created (whatever trash directory is tried)
+            import errno as E
+            p = wd + '/nf%d' % i
+            G.make_entry(rng, p, rng.choice(['file', 'dir']), steps, aux)
+            faults.append({'kind': 'cond', 'what': 'name_errno', 'ops': rng.choice([['open_w'], ['open_w'], ['write', 'fwrite'], ['close']]) ,
+                           'basename': 'nf%d.trashinfo' % i, 'errno': rng.choice([E.ENOSPC, E.EDQUOT, E.EROFS, E.EIO, E.EACCES])})
         elif cls == 'immutable':
             p = wd + '/imm%d' % i
             G.make_entry(rng, p, rng.choice(['file', 'dir']), steps, aux)
@@ -203,6 +210,8 @@ def check(sim, case, st):
                 fcls = 'fault-immutable'
             if nm.loc and f.get('dir') == posixpath.dirname(nm.loc):
                 fcls = 'fault-dir'
+            if nm.loc and f.get('what') == 'name_errno' and f.get('basename') == posixpath.basename(nm.loc) + '.trashinfo':
+                fcls = 'fault-info-creation'
         classes.append(fcls)
         state = oc.state
         legit_skip = (cls == 'missing' and force) or declined
